@@ -3,6 +3,6 @@ SPECIFICATION Spec
 CONSTANTS
   Zones = {"UTC", "Asia/Kolkata", "America/New_York"}
   AllowTs = TRUE
-INVARIANTS IdealPassOK
+INVARIANTS TruthLemma IdealPassOK
 INVARIANTS EmitUniverse EmitScenarios
 CHECK_DEADLOCK FALSE
